@@ -404,6 +404,30 @@ func c11(args []string) {
 			}
 		}
 		ps = append(ps, ancestorIdentity(wd, got)...)
+		// whatever the history: the record of an output names every input of its task (also the members of a joined port)
+		for _, t := range exp.Tasks {
+			for port, out := range t.Outs {
+				g := got[out]
+				if g == nil || t.Streams[port] {
+					continue
+				}
+				for _, it := range t.In {
+					var need []string
+					if len(it.Sub) > 0 {
+						for _, m := range it.Sub {
+							need = append(need, m.Path)
+						}
+					} else if !it.Stream {
+						need = append(need, it.Path)
+					}
+					for _, np := range need {
+						if _, ok := g.Upstream[np]; !ok {
+							ps = append(ps, mon.Problem{Sig: "upstream-incomplete", Msg: fmt.Sprintf("audit of %s (task %s) has no Upstream entry for its input %s", out, t.Key, np)})
+						}
+					}
+				}
+			}
+		}
 		rps, nrt := roundTrip(c, wd, exp)
 		ps = append(ps, rps...)
 		if len(ps) > 0 {
